@@ -468,8 +468,8 @@ def _min(h, a, b):
 
 
 def h_lemma_merge(h):
-    """the merged Point/Vector comparisons (loader state-merging stub) agree with
-    the source functions on every input"""
+    """Point/Vector.almost_equals (source function, forked) decides exactly
+    |dx|<=tol and |dy|<=tol; the merged evaluation used by the loader agrees"""
     G = h.m.geometric_types
     a = (h.real("ax"), h.real("ay"))
     b = (h.real("bx"), h.real("by"))
@@ -479,13 +479,16 @@ def h_lemma_merge(h):
         p, q = cls(*a), cls(*b)
         orig = getattr(cls, "_orig_almost_equals", cls.almost_equals)
         r1 = bool(orig(p, q, tol))  # forks like the source
-        r2 = bool(cls.almost_equals(p, q, tol))  # decided under the same path condition
-        h.check(r1 == r2, f"lemma.{cls.__name__}.almost_equals")
-        e1 = bool(tuple.__eq__(p, q)) if not h.symbolic else bool(h.and_(h.eq(a[0], b[0]), h.eq(a[1], b[1])))
-        e2 = bool(p == q)
-        n2 = bool(p != q)
-        h.check(e1 == e2 and e1 != n2, f"lemma.{cls.__name__}.eq_ne")
-        out += [r1, e1]
+        spec = h.and_(h.close(a[0], b[0], tol), h.close(a[1], b[1], tol))
+        h.check(spec if r1 else h.not_(spec), f"almost_equals.{cls.__name__}.is_componentwise_within_tol")
+        if h.symbolic:
+            r2 = bool(cls.almost_equals(p, q, tol))  # merged: decided under the same path condition
+            h.check(r1 == r2, f"lemma.{cls.__name__}.almost_equals")
+            e1 = bool(h.and_(h.eq(a[0], b[0]), h.eq(a[1], b[1])))
+            e2 = bool(p == q)
+            n2 = bool(p != q)
+            h.check(e1 == e2 and e1 != n2, f"lemma.{cls.__name__}.eq_ne")
+        out += [r1]
     return out
 
 
@@ -595,7 +598,9 @@ def _context(seq, lab):
 
 def replay(case, failure):
     if case["kind"] == "lemma_merge":
-        return {"reproduced": False, "detail": "lemma about the loader's own stub: harness error, not a repo violation"}
+        if failure["label"].startswith("lemma."):
+            return {"reproduced": False, "detail": "lemma about the loader's own stub: harness error, not a repo violation"}
+        return replay_concrete(h_lemma_merge, failure)
     if case["kind"] == "shape":
         return replay_concrete(make_shape_harness(case["shape"]), failure)
     rw = failure.get("rewrite") or failure["label"].split(".")[0]
